@@ -29,23 +29,24 @@ def recsD (hashOf : List β → H) (b : LBackupF β F) : List (Rec H F String) :
 
 def uniqueOf (rs : List (Rec H F String)) (k : String) : Bool := rs.any (fun r => r.unique && r.path == k)
 
-/-- One run appending to group `g` (of which the manifests `mask` are readable). -/
+/-- One run appending to group `g` (of which the manifests `mask` are readable); `pad`: what follows the content in the
+archive entries of the files it stores (zeros, where a file shrank while it was archived - C15). -/
 def runL (hashOf : List β → H) (g : List (LBackupF β F)) (mask : List Bool) (name : String)
-    (es : List (Entry β)) (fpf : String → F) : LBackupF β F :=
+    (es : List (Entry β)) (fpf : String → F) (pad : String → List β) : LBackupF β F :=
   let recs := records (runBackup (hashOf []) (view (g.map (recsD hashOf)) mask) (eventsOf hashOf fpf es))
-  ⟨⟨name, es, fun p => uniqueOf recs (keyOf ((tarPathToFile p).getD [])), fun _ => []⟩, fpf⟩
+  ⟨⟨name, es, fun p => uniqueOf recs (keyOf ((tarPathToFile p).getD [])), pad⟩, fpf⟩
 
 abbrev LStore (β F : Type) := List (List (LBackupF β F))
 
 inductive LOp (β F : Type) where
-  | run (name : String) (es : List (Entry β)) (fpf : String → F) (mask : List Bool) (newGroup : Bool)
+  | run (name : String) (es : List (Entry β)) (fpf : String → F) (mask : List Bool) (newGroup : Bool) (pad : String → List β)
   | deleteGroups (keep : List Bool)
 
 def stepL (hashOf : List β → H) (st : LStore β F) : LOp β F → LStore β F
-  | .run name es fpf mask newGroup =>
+  | .run name es fpf mask newGroup pad =>
     match st.getLast?, newGroup with
-    | some g, false => st.dropLast ++ [g ++ [runL hashOf g mask name es fpf]]
-    | _, _ => st ++ [[runL hashOf [] [] name es fpf]]
+    | some g, false => st.dropLast ++ [g ++ [runL hashOf g mask name es fpf pad]]
+    | _, _ => st ++ [[runL hashOf [] [] name es fpf pad]]
   | .deleteGroups keep => keepMasked st keep
 
 end Vsb.Restore
